@@ -34,7 +34,7 @@ var c04Endpoints = []string{"connect", "update", "updateLegacy", "peer", "host",
 
 var c04Alterations = []string{
 	"none", "none", "none",
-	"method", "identity", "idcase", "nonce+1", "nonce-1", "param", "sigbyte", "otherkey", "empty", "short", "garbage", "alphabet", "style",
+	"method", "identity", "idcase", "nonce+1", "nonce-1", "param", "sigbyte", "otherkey", "empty", "short", "garbage", "alphabet", "style", "prefixjunk",
 }
 
 func genText(rt *rapid.T, label string) string {
@@ -558,6 +558,16 @@ func TestC04SignedEndpoints(t *testing.T) {
 				} else {
 					sig = hex.EncodeToString(decode(sig))
 				}
+			case "prefixjunk":
+				// characters inserted between the hex prefix and the signature proper (wallet style), or a prefix where
+				// none belongs (node style: base64 has no prefix)
+				junk := rapid.SampledFrom([]string{"0", "00", "0x", "x", "0X0", "000000", "X"}).Draw(rt, "junk")
+				if r.wallet {
+					sig = "0x" + junk + sig
+				} else {
+					sig = rapid.SampledFrom([]string{"0x", "0X", "0"}).Draw(rt, "nodePrefix") + sig
+				}
+				detail = junk
 			case "style":
 				// node-style signature on a wallet identity and vice versa
 				var err error
@@ -576,6 +586,11 @@ func TestC04SignedEndpoints(t *testing.T) {
 				if err != nil {
 					rt.Fatalf("sign: %v", err)
 				}
+			}
+			if alt == "none" && r.wallet && rapid.Bool().Draw(rt, "hexPrefix") {
+				// wallets usually send their signature with the 0x prefix (what eth_sign returns)
+				sig = "0x" + sig
+				detail = "0x-prefixed"
 			}
 			before := f.s.digest()
 			err := f.submit(r, sig, id, nonce, arg, viaRPC)
